@@ -61,7 +61,7 @@ fn main() {
             }
         }
         "C12" => {
-            let t = if thorough { Tier { max_len: 4, k: 4, thorough } } else { Tier { max_len: 3, k: 2, thorough } };
+            let t = if thorough { Tier { max_len: 5, k: 4, thorough } } else { Tier { max_len: 3, k: 2, thorough } };
             rep.rule = "one execution = (combinator, parameters, input sequence over {0,1,2}, placement of <= k Pending answers over all poll_ready/poll_finalize calls of all scripted downstreams and all polls of scripted futures/streams/pulls); distinct non-trivial = distinct (combinator, parameters, input) that ran under >= 1 schedule with an injected Pending".into();
             rep.explanation = "real dfir_pipes push combinators fed by the canonical driver (poll_ready until Done, start_send, ..., poll_finalize until Done) into scripted protocol-checking pushes: per downstream the received items equal the reference semantics (in order; multisets for hash-map emission), every start_send is preceded by a Done from poll_ready (latest answer Done), nothing is sent after finalize completed, every downstream is finalized".into();
             rep.bound("max_len", t.max_len);
